@@ -740,6 +740,7 @@ package quickfix
 // moved on by one
 //@ func (s *session) handleLogon [C01,C06,C07,C08]
 //@   ensures [C08] @notified s.application.#logons <= old(s.application.#logons) + 1
+//@   ensures [C07] @cleared result == nil ==> !s.sentReset
 //@   requires @sess sessfull(s)
 //@   requires @bound s.store.#T < MaxInt64
 //@   requires @msg msgok(msg)
@@ -909,6 +910,7 @@ package quickfix
 //@ spec stnotifies(s *session) bool = stlogged(s.State) || s.State is pendingTimeout || s.State is logoutState || (s.State is logonState && s.InitiateLogon)
 //@ func (sm *stateMachine) handleDisconnectState [C08]
 //@   requires @sess sessfull(s)
+//@   atcall onDisconnect @quiet sent(s.messageOut) == old(sent(s.messageOut)) && s.messageOut == old(s.messageOut)
 //@   ensures @once s.application.#logouts == old(s.application.#logouts) + (old(stnotifies(s)) ? 1 : 0)
 //@   ensures @closed s.messageOut == nil
 //@   requires @chanpre s.notifyOnInSessionTime != nil ==> !closed(s.notifyOnInSessionTime)
